@@ -1,0 +1,39 @@
+//go:build verif
+// +build verif
+
+// Contracts for deductive verification of package models (comment-only; compiled only
+// with the build tag "verif"). Grammar: /verif/DESIGN.md, Appendix B.
+
+package models
+
+// ---------------------------------------------------------------- C10 accepted shard rules give an unambiguous table layout
+// psum(l, i) = l[0] + ... + l[i-1] (prefix sums of the locations list; definitional axioms over the list as it is at function
+// entry -- the verified functions never write the list)
+//@ pure psum(l []int, i int) int
+//@ axiom psumZero: forall(l []int, psum(l, 0) == 0)
+//@ axiom psumStep: forall(l []int, forall(i int, 0 <= i && i < len(l) ==> psum(l, i + 1) == psum(l, i) + l[i]))
+//@ constglobal errors.ErrLocationsCount
+//@ axiom errLocationsCountNonNil: errors.ErrLocationsCount != nil
+//@ property C10: verifyHashRuleSliceInfos, includeSlice
+
+// the validator accepts a locations list only when it has one entry per slice, no negative entry and at least one table;
+// the layout it computes maps table t to the slice i with psum(i) <= t < psum(i+1), and nothing else
+//@ func verifyHashRuleSliceInfos
+//@   requires len(locations) <= 1024 && forall(k, 0, len(locations), locations[k] <= 1<<20)
+//@   assigns \nothing
+//@   loop 0(i) invariant 0 <= i && i <= len(locations) && sumTables == psum(locations, i) && 0 <= sumTables && sumTables <= i * (1<<20) && fresh(tableToSlice)
+//@   loop 0(i) invariant forall(k, 0, i, locations[k] >= 0 && psum(locations, k) <= psum(locations, k + 1)) && forall(k, 0, i + 1, psum(locations, k) <= sumTables)
+//@   loop 0(i) invariant forall(t int, has(tableToSlice, t) <==> (0 <= t && t < sumTables))
+//@   loop 0(i) invariant forall(k, 0, i, forall(t int, psum(locations, k) <= t && t < psum(locations, k + 1) ==> tableToSlice[t] == k))
+//@   loop 1(j) invariant 0 <= j && (j <= locations[i] || locations[i] < 0) && fresh(tableToSlice) && 0 <= i && i < len(locations) && sumTables == psum(locations, i)
+//@   loop 1(j) invariant forall(t int, has(tableToSlice, t) <==> (0 <= t && t < sumTables + j)) && forall(k, 0, i + 1, psum(locations, k) <= sumTables)
+//@   loop 1(j) invariant forall(k, 0, i, forall(t int, psum(locations, k) <= t && t < psum(locations, k + 1) ==> tableToSlice[t] == k)) && forall(t int, sumTables <= t && t < sumTables + j ==> tableToSlice[t] == i)
+//@   ensures case count:    ret1 == nil ==> len(locations) == len(slices)
+//@   ensures case positive: ret1 == nil ==> forall(k, 0, len(locations), locations[k] >= 0) && psum(locations, len(locations)) > 0
+//@   ensures case domain:   ret1 == nil ==> forall(t int, has(ret0, t) <==> (0 <= t && t < psum(locations, len(locations))))
+//@   ensures case layout:   ret1 == nil ==> forall(k, 0, len(locations), forall(t int, psum(locations, k) <= t && t < psum(locations, k + 1) ==> ret0[t] == k))
+
+//@ func includeSlice
+//@   assigns \nothing
+//@   loop 0 invariant forall(k, 0, rangeindex + 1, slices[k] != sliceName)
+//@   ensures ret0 <==> exists(k, 0, len(slices), slices[k] == sliceName)
